@@ -19,6 +19,7 @@ import (
 	"net"
 	"net/netip"
 	"os"
+	"runtime"
 	"strings"
 	"sync"
 	"testing"
@@ -53,6 +54,10 @@ type c05Case struct {
 	Client    c05Side `json:"client"`     // what the client sends (read side of L)
 	Server    c05Side `json:"server"`     // what the upstream sends (read side of R)
 	HorizonMs int64   `json:"horizon_ms"` // stop when virtual time is stuck (everything blocked for ever)
+
+	// kind "multi"
+	Conns []c05Case `json:"conns"`
+	Order [][2]int  `json:"order"`
 }
 
 type c05Event struct {
@@ -454,7 +459,14 @@ func c05Decode(side c05Side) (in []struct {
 	return
 }
 
-func c05RunMem(cs *c05Case) (res c05Result) {
+// c05Gate lets a multi-connection scenario stop a connection between "prologue returned" and "relay started"
+// (in handleConn that is the time of the upstream dial).
+type c05Gate struct {
+	prologueDone chan struct{}
+	startRelay   chan struct{}
+}
+
+func c05RunMem(cs *c05Case, gate *c05Gate) (res c05Result) {
 	clk := &c05Clock{stuck: make(chan struct{}), dlMemo: map[time.Time]int64{}}
 	clk.cond = sync.NewCond(&clk.mu)
 	L := &c05Conn{clk: clk, name: "L", dl: -1, eofAt: cs.Client.EofAt}
@@ -507,6 +519,10 @@ func c05RunMem(cs *c05Case) (res c05Result) {
 		clk.stage = 1
 		R.idleOK = false
 		clk.mu.Unlock()
+		if gate != nil {
+			close(gate.prologueDone)
+			<-gate.startRelay
+		}
 		if po.reached {
 			relayRan = true
 			if cs.GraceMs > 0 {
@@ -519,6 +535,9 @@ func c05RunMem(cs *c05Case) (res c05Result) {
 		}
 	}()
 
+	if gate != nil {
+		<-gate.startRelay
+	}
 	select {
 	case <-done:
 	case <-clk.stuck:
@@ -740,8 +759,71 @@ func TestVerifC05(t *testing.T) {
 		if cs.Kind == "tcp" {
 			return c05RunTCP(&cs)
 		}
-		return c05RunMem(&cs)
+		if cs.Kind == "multi" {
+			return c05RunMulti(&cs)
+		}
+		return c05RunMem(&cs, nil)
 	})
+}
+
+// c05RunMulti: k connections over the process-wide pools.  Order is a list of [op, conn]: op 0 = run the
+// connection's handleConn prologue to its end (the connection then "dials"), op 1 = run its relay to the end.
+// One P, so that sync.Pool hands a buffer that was just put back to the next taker, as on a busy single core.
+func c05RunMulti(m *c05Case) map[string]any {
+	old := runtime.GOMAXPROCS(1)
+	defer runtime.GOMAXPROCS(old)
+	k := len(m.Conns)
+	gates := make([]*c05Gate, k)
+	outs := make([]chan c05Result, k)
+	res := make([]c05Result, k)
+	started := make([]bool, k)
+	relayed := make([]bool, k)
+	doP := func(i int) {
+		if started[i] {
+			return
+		}
+		started[i] = true
+		gates[i] = &c05Gate{prologueDone: make(chan struct{}), startRelay: make(chan struct{})}
+		outs[i] = make(chan c05Result, 1)
+		go func() { outs[i] <- c05RunMem(&m.Conns[i], gates[i]) }()
+		select {
+		case <-gates[i].prologueDone:
+		case <-time.After(8 * time.Second):
+			res[i].Hang = "prologue did not return"
+		}
+	}
+	doR := func(i int) {
+		doP(i)
+		if relayed[i] {
+			return
+		}
+		relayed[i] = true
+		close(gates[i].startRelay)
+		select {
+		case r := <-outs[i]:
+			h := res[i].Hang
+			res[i] = r
+			if h != "" {
+				res[i].Hang = h
+			}
+		case <-time.After(20 * time.Second):
+			res[i].Hang = "relay did not return"
+		}
+	}
+	for _, op := range m.Order {
+		if op[1] < 0 || op[1] >= k {
+			continue
+		}
+		if op[0] == 0 {
+			doP(op[1])
+		} else {
+			doR(op[1])
+		}
+	}
+	for i := 0; i < k; i++ {
+		doR(i)
+	}
+	return map[string]any{"multi": res}
 }
 
 var _ = os.Getenv
